@@ -6,6 +6,7 @@ function `base + per * iteration`.  (Loop-level theorems are added from `Proofs/
 -/
 import Compass.Proofs.Num
 import Compass.Model.Instance
+import Compass.Proofs.SearchLimits
 
 namespace Compass
 namespace C10
@@ -60,6 +61,71 @@ theorem runtime_stops_at_next_check (limit freq base per sz it i₀ : Nat) (hf :
     (TermM.runtime limit freq base per).test sz it = .error (.terminated [.runtime]) := by
   rw [runtime_test _ _ _ _ _ _ hf]
   simp [hm, hex it hit]
+
+
+/-! ### Loop level (every configuration, source, target and schedule) -/
+
+section
+open SearchLimits
+variable {α : Type} [Field α] [LinearOrder α] [IsStrictOrderedRing α] [Lit α] [LawfulLit α]
+
+/-- With an iteration limit `L` anywhere in the configured termination model a search never performs
+more than `L` expansion steps: a returned result has at most `L` iterations, and the loop never
+consumes more than `L` scheduled pops (the run is unchanged when the schedule is cut after `L`). -/
+theorem iterations_le_limit (c : Config α) {L : Nat} (hl : Leaf (.iters L) c.term)
+    (source : Nat) (target : Option Nat) (sched : List Nat) :
+    (∀ s, runAStar c.inst source target sched = .ok s → s.iters ≤ L) ∧
+    runAStar c.inst source target sched = runAStar c.inst source target (sched.take L) :=
+  ⟨fun _ h => (config_iterations_le_limit c hl h).1, config_runAStar_take c hl source target sched⟩
+
+/-- With a solution-size limit `S` the tree never exceeds `S` by more than one vertex's degree `D`
+(and a tree that is returned has at most `S` entries). -/
+theorem size_le_limit_plus_degree (c : Config α) {S D : Nat} (hl : Leaf (.size S) c.term)
+    (hD : ∀ v, (c.inst.incident v).length ≤ D) {source : Nat} {target : Option Nat}
+    {sched : List Nat} {s : SState α} (hrun : runAStar c.inst source target sched = .ok s) :
+    s.solSize ≤ S + D ∧ s.solSize ≤ S :=
+  config_size_le_limit_plus_degree c hl hD hrun
+
+/-- With a time budget exhausted from iteration `i₀` on, the search stops at the next scheduled
+check: no result is returned after `nextCheck freq i₀` iterations. -/
+theorem runtime_stops_at_next_scheduled_check (c : Config α) {limitNs freq baseNs perNs i₀ : Nat}
+    (hl : Leaf (.runtime limitNs freq baseNs perNs) c.term) (hf : 0 < freq)
+    (hex : ∀ i, i₀ ≤ i → limitNs < baseNs + perNs * i) {source : Nat} {target : Option Nat}
+    {sched : List Nat} {s : SState α} (hrun : runAStar c.inst source target sched = .ok s) :
+    s.iters ≤ nextCheck freq i₀ :=
+  (config_runtime_stops_at_next_check c hl hf hex hrun).1
+
+/-- A search that hits a limit returns the explicit `terminated` error naming the limit(s) that
+fired at that loop head — never a route, a tree or "no path". -/
+theorem terminated_names_fired_limits (c : Config α) {source : Nat} {target : Option Nat}
+    {ks : List TermKind} (sched : List Nat) (s : SState α)
+    (h : runLoop c.inst source target sched s = .error (.terminated ks)) :
+    ∃ pre rest hd, sched = pre ++ rest ∧ Reach c.inst source target pre s hd ∧
+      c.term.test hd.solSize hd.iters = .error (.terminated ks) ∧ ks ≠ [] ∧
+      ∀ k ∈ ks, ∃ l, Leaf l c.term ∧ kindOf l = k ∧ l.fires hd.solSize hd.iters = some true :=
+  config_terminated_from_limit c sched s h
+
+/-- the termination model never answers with the "unable to explain" internal error -/
+theorem termination_never_unexplained (m : TermM) (sz it : Nat) : m.test sz it ≠ .error .internal :=
+  test_ne_internal m sz it
+
+/-- Whenever a search returns under limits its result is identical to the unlimited result … -/
+theorem limited_result_is_unlimited_result (c : Config α) {source : Nat} {target : Option Nat}
+    {sched : List Nat} {r : SearchResult α}
+    (h : runVertexOriented c.inst source target sched = .ok r) :
+    runVertexOriented ({ c with term := .combined [] } : Config α).inst source target sched = .ok r :=
+  config_limited_prefix c h
+
+/-- … and success is monotone in the limits: any termination model that lets pass everything the
+configured one lets pass returns the same result. -/
+theorem success_monotone_in_limits (c : Config α) (m₂ : TermM)
+    (hmono : ∀ sz it, c.term.test sz it = .ok () → m₂.test sz it = .ok ())
+    {source : Nat} {target : Option Nat} {sched : List Nat} {r : SearchResult α}
+    (h : runVertexOriented c.inst source target sched = .ok r) :
+    runVertexOriented ({ c with term := m₂ } : Config α).inst source target sched = .ok r :=
+  config_success_monotone c m₂ hmono h
+
+end
 
 /-! ### Non-vacuity -/
 example : (TermM.iters 3).test 0 2 = .ok () := by decide
